@@ -335,6 +335,90 @@ fn run_long(c: &LongCase, lx: &mut Local) {
     });
 }
 
+#[derive(Debug, Clone)]
+struct MatCase {
+    lanes: usize,
+    ll: usize,
+    axis: usize,
+    nq: usize,
+    strat: Strat,
+    policy: Policy,
+    layout: usize,
+}
+
+/// several long lanes in one bulk call (scratch buffers, per-lane state, sort-the-lane paths)
+fn run_mat(c: &MatCase, lx: &mut Local) {
+    let shape: Vec<usize> = if c.axis == 1 { vec![c.lanes, c.ll] } else { vec![c.ll, c.lanes] };
+    let n = c.lanes * c.ll;
+    let lanes = lanes_flat(&shape, c.axis);
+    let mut data = vec![0i64; n];
+    for (j, lane) in lanes.iter().enumerate() {
+        for (k, &fi) in lane.iter().enumerate() {
+            // a different arrangement and a different value range per lane
+            data[fi] = (((k * (7 + 2 * j) + 3 * j) % c.ll) as i64) * 10 + 1000 * j as i64 - if (k + j) % 9 == 0 { 5 } else { 0 };
+        }
+    }
+    let sorted_lanes: Vec<Vec<i64>> = lanes.iter().map(|l| { let mut v: Vec<i64> = l.iter().map(|&i| data[i]).collect(); v.sort(); v }).collect();
+    let grid = q_grid_small(c.ll);
+    let qs: Vec<f64> = (0..c.nq).map(|i| grid[(i * grid.len() / c.nq + (i % 3)) % grid.len()]).collect();
+    let lay = all_layouts(2, &[1, -1, 2])[c.layout].clone();
+    let jds: Vec<Vec<Judge<i64>>> = qs.iter().map(|&q| sorted_lanes.iter().map(|sl| Judge::new(sl, q, c.strat)).collect()).collect();
+    let ax = Axis(c.axis);
+    let mut bulk_shape = shape.clone();
+    bulk_shape[c.axis] = qs.len();
+    lx.explore(&PivotMode::Bounded { policy: c.policy, bound: 0 }, |lx| {
+        let mut h = Host::new(&shape, &data, &lay, -99i64);
+        let qa = Array1::from(qs.iter().map(|&q| n64(q)).collect::<Vec<N64>>());
+        let r = guarded(|| {
+            let mut v = h.view_mut();
+            nsmc::with_strategy!(c.strat, i, v.quantiles_axis_mut(ax, &qa, i))
+        });
+        match r {
+            Ok(Ok(res)) => {
+                if !lx.check(res.shape() == &bulk_shape[..], "C01/result-shape", || format!("bulk result shape {:?}, expected {:?}; {:?}", res.shape(), bulk_shape, c)) {
+                    return 0;
+                }
+                for (jq, _) in qs.iter().enumerate() {
+                    let flat: Vec<i64> = res.index_axis(ax, jq).iter().cloned().collect();
+                    for (j, _) in sorted_lanes.iter().enumerate() {
+                        record(lx, &jds[jq][j], Some(&flat[j]), &|| format!("quantiles_axis_mut request #{} (q={:?}) of {}, lane {} of {:?}", jq, qs[jq], qs.len(), j, c));
+                    }
+                }
+                hash_of(&res.iter().cloned().collect::<Vec<_>>())
+            }
+            other => {
+                lx.fail("C01/panic", || format!("quantiles_axis_mut failed: {:?}; {:?}", other.map(|r| r.map(|_| ())), c));
+                0
+            }
+        }
+    });
+    // the single-q form on the same array, for the first and last request
+    for &q in [qs[0], qs[qs.len() - 1]].iter() {
+        lx.explore(&PivotMode::Bounded { policy: c.policy, bound: 0 }, |lx| {
+            let mut h = Host::new(&shape, &data, &lay, -99i64);
+            let r = guarded(|| {
+                let mut v = h.view_mut();
+                nsmc::with_strategy!(c.strat, i, v.quantile_axis_mut(ax, n64(q), i))
+            });
+            match r {
+                Ok(Ok(res)) => {
+                    let flat: Vec<i64> = res.iter().cloned().collect();
+                    for (j, sl) in sorted_lanes.iter().enumerate() {
+                        if j < flat.len() {
+                            record(lx, &Judge::new(sl, q, c.strat), Some(&flat[j]), &|| format!("quantile_axis_mut(q={:?}) lane {} of {:?}", q, j, c));
+                        }
+                    }
+                    hash_of(&flat)
+                }
+                other => {
+                    lx.fail("C01/panic", || format!("quantile_axis_mut failed: {:?}; {:?}", other.map(|r| r.map(|_| ())), c));
+                    0
+                }
+            }
+        });
+    }
+}
+
 fn main() {
     let mut rep = Report::new("C01");
     rep.rule = "case = (weak-order pattern, value table, element type, strategy, single/bulk) in 1-D with the q grid and all pivot sequences inside; (shape, axis, layout, content family, strategy, pivot policy, type) in n-D; non-trivial = lane length >= 2".into();
@@ -413,11 +497,37 @@ fn main() {
             }
         },
     );
-    let nlong = rep.cfg.pick(96, 250);
+    let mut mcases: Vec<MatCase> = Vec::new();
+    let lls: Vec<usize> = if rep.cfg.thorough() { vec![9, 16, 17, 18, 31, 32, 33, 34, 40, 63, 64, 65, 66, 70, 100, 129, 200] } else { vec![16, 17, 18, 32, 33, 34, 40, 65, 70, 129] };
+    for &ll in &lls {
+        for lanes in [2usize, 3] {
+            for axis in 0..2usize {
+                for &nq in &[3usize, 10, 20, 40, 70] {
+                    if nq > 2 * ll {
+                        continue;
+                    }
+                    for (si, &strat) in Strat::ALL.iter().enumerate() {
+                        let policy = [Policy::Middle, Policy::First, Policy::Last][(si + nq + ll) % 3];
+                        mcases.push(MatCase { lanes, ll, axis, nq, strat, policy, layout: (ll + lanes + axis + nq + si) % 24 });
+                    }
+                }
+            }
+        }
+    }
+    rep.run_sub(
+        "several-long-lanes-bulk",
+        &format!("2 and 3 lanes of length {:?} along either axis of a 2-D array (layout rotating over 24 layouts) x bulk request lists of 3, 10, 20, 40, 70 q values from the boundary grid x 5 strategies x pivot policy rotating: every entry of quantiles_axis_mut against the sort-based reference of ITS lane; quantile_axis_mut for the first and last request", lls),
+        mcases.into_iter(),
+        |c, lx| {
+            lx.nontrivial(true);
+            run_mat(c, lx)
+        },
+    );
+    let nlong = rep.cfg.pick(140, 256);
     let cases = (13..=nlong).flat_map(|n| (0..6usize).flat_map(move |fam| Policy::ADVERSARIAL.iter().enumerate().map(move |(pi, &policy)| LongCase { n, fam, strat: Strat::ALL[(n + fam + pi) % 5], policy }).collect::<Vec<_>>()));
     rep.run_sub(
         "long-lanes-adversarial-policies",
-        &format!("every lane length 13..={} x 6 input families (increasing, decreasing, organ pipe, two-valued, all equal, sawtooth) x policies first / last / parity-alternating ends / middle (0 deviations: recursion depth up to n-1) x ~12 q from the boundary grid x strategy rotating; quantile_mut and quantiles_mut on i64", nlong),
+        &format!("every lane length 13..={} x 6 input families (increasing, decreasing, organ pipe, two-valued, all equal, sawtooth) x policies first / last / parity-alternating ends / middle / second / second-to-last (0 deviations: recursion depth up to n-1) x ~12 q from the boundary grid x strategy rotating; quantile_mut and quantiles_mut on i64", nlong),
         cases,
         |c, lx| {
             lx.nontrivial(true);
